@@ -320,6 +320,33 @@ class Ctx:
                 break
         return rejected
 
+    def validate_histories_1pass(self, module, cfg, hists, timeout=1800, heap="6g", tag="h1"):
+        """Single-pass variant for trace modules that record rejected
+        executions instead of stopping (they print <<"TRACE_BAD", {<<hid, line>>..}>>;
+        the Reset event of execution i gets "hid": i).  Returns
+        [(index, line_in_execution, [])]."""
+        path = os.path.join(self.build, "%s.ndjson" % tag)
+        starts = []
+        n = 1
+        with open(path, "w") as f:
+            for i, h in enumerate(hists):
+                starts.append(n)
+                for k, e in enumerate(h):
+                    if k == 0:
+                        e = dict(e)
+                        e["hid"] = i
+                    f.write(json.dumps(e, separators=(",", ":")) + "\n")
+                n += len(h)
+        accepted, res, line = self.validate_trace(module, cfg, path, timeout=timeout, heap=heap)
+        if not accepted:
+            raise ToolError("single-pass trace validation did not consume the trace (line %s)\n%s" % (line, res.out[-2000:]))
+        m = re.search(r'"TRACE_BAD",\s*\{(.*?)\}\s*>>', res.out, re.S)
+        if not m:
+            raise ToolError("single-pass trace validation: no TRACE_BAD report\n" + res.out[-2000:])
+        bad = [(int(a), int(b)) for a, b in re.findall(r"<<(\d+), (\d+)>>", m.group(1))]
+        self.traces += len(hists)
+        return sorted((i, ln - starts[i] + 1, []) for i, ln in bad)
+
     # ---------------------------------------------------------------- verdict
     def violation(self, key, what, replay_obj):
         """Report a violation observed on the real code (after the caller
